@@ -418,11 +418,25 @@ def to_lz4(data, rng=None, block_max_id=4, chunk=None, stored=True, content_chec
 
 
 def to_tar(members, fmt="ustar"):
-    """members: list of (name, data, mtime). Returns tar bytes."""
+    """members: list of (name, data, mtime). Returns tar bytes.
+    data may also be ("dir",), ("symlink", target) or ("hardlink", target): entries that are not regular files, as
+    `tar cf logs.tar logs/` writes them (a directory entry before its files, links among them)."""
     f = {"ustar": tarfile.USTAR_FORMAT, "gnu": tarfile.GNU_FORMAT, "pax": tarfile.PAX_FORMAT}[fmt]
     buf = io.BytesIO()
     with tarfile.open(fileobj=buf, mode="w", format=f) as t:
         for (name, data, mtime) in members:
+            if isinstance(data, tuple):
+                ti = tarfile.TarInfo(name)
+                ti.mtime = int(mtime or 0)
+                ti.uname, ti.gname = "u", "g"
+                if data[0] == "dir":
+                    ti.type, ti.mode = tarfile.DIRTYPE, 0o755
+                elif data[0] == "symlink":
+                    ti.type, ti.linkname, ti.mode = tarfile.SYMTYPE, data[1], 0o777
+                else:
+                    ti.type, ti.linkname, ti.mode = tarfile.LNKTYPE, data[1], 0o644
+                t.addfile(ti)
+                continue
             ti = tarfile.TarInfo(name)
             ti.size = len(data)
             ti.mtime = int(mtime or 0)
